@@ -370,5 +370,26 @@ func ErrOf(v []Val) string {
 	return ""
 }
 
+// Pin replays one pinned witness of a known finding: the expression must give `correct` (canonical text,
+// core.Canon); while it gives `wrong` (canonical text, or an error containing the text after "ERR:") the
+// known finding law:mode still holds. setup statements run first on the fresh session.
+func Pin(r *core.Run, law, mode, what, expr, correct, wrong string, setup ...string) {
+	PinnedInst(r, law, mode, what, &Inst{Class: "pinned", Exprs: []string{expr}, OnErr: ErrToCheck, Setup: setup, Check: func(v []Val) string {
+		if IsErr(v) {
+			if strings.HasPrefix(wrong, "ERR:") && strings.Contains(ErrOf(v), wrong[4:]) {
+				return mode
+			}
+			return "error"
+		}
+		switch v[0].Canon() {
+		case correct:
+			return ""
+		case wrong:
+			return mode
+		}
+		return "pinned-witness-gives-a-third-value"
+	}})
+}
+
 // IsErr reports whether the predicate was called for an SQL error.
 func IsErr(v []Val) bool { return len(v) == 1 && v[0].Err != nil }
